@@ -5,9 +5,13 @@ ALL = ["C%02d" % i for i in range(1, 21)]
 technique = "bounded symbolic execution of the real go/ssa of /repo (own engine gosym) with SMT (z3 5.1.0) deciding every assertion / panic / branch over all inputs within the stated bounds; counterexamples replayed natively against the real build"
 level_note = "trusted: go/packages+go/ssa faithful to the compiler; the gosym interpreter and its intrinsics (listed in the evidence); z3; per-property stubs listed in the evidence; bounds as stated in evidence.coverage.bounds"
 claimed = {
+ "C06": "every task shape with up to 3 commands x 2 (thorough 3) variations x 2 before x 2 after x optional condition, run through the real TaskRunner.Run/before/after/execute/CompileTask with a symbolic outcome per executed command (success, any exit status 1..255, non-status error) and symbolic allow_failure: the sequence of executed commands and the skipped flag equal the reference semantics on every path",
+ "C07": "task level: same runs as C06, asserting error <=> hard failure, errored flag and recorded exit status == the failing command's status for all 255 statuses at once (bit-vector conversion); CLI level: root action, `run`, `run task` on every argument vector of up to 3 (thorough 4) words over {task, task, pipeline, unknown, --} with symbolic target results, and main()'s abnormal exit <=> run() failed",
+ "C19": "prefixed decorator (real bufio.ScanLines / bufio.Writer / lineWriter SSA): for every split of a stream into 2 writes of <=3 arbitrary bytes (no ESC) or 3 writes of <=2 bytes over {a,b,CR,LF} (thorough: 3x3, 2x4, 4x2): every sink write is one whole prefixed line, no LF inside, payload bytes == input bytes with CR/LF removed, in order; raw decorator forwards bytes unchanged call by call",
  "C05": "every directed graph on 4 stages with up to 2 (thorough: 3; and 5 stages with 2) depends_on entries per stage, in every declaration order up to renaming: NewExecutionGraph's verdict equals a reference cycle test and accepted graphs expose exactly the declared edges; decided per symbolic path by the solver for all dependency assignments at once",
 }
 na = {
+ "C16": "the property is about yaml.v2 / encoding/json / go-toml / mapstructure agreeing on every key and value shape: reflection- and unsafe-heavy third-party code that cannot be encoded by the SSA executor; taskctl's own contribution is a four-way switch on the file extension, and a solver check of that switch would say nothing about the property (DESIGN.md §6)",
 }
 default_na = "check not built yet in this session (engine exists; harness pending)"
 checks = []
